@@ -3,7 +3,8 @@
    the ones independent mutation authors made in the Rust source; all of them pass the crate's own test suite. *)
 From stdpp Require Import list numbers option.
 From RecordUpdate Require Import RecordUpdate.
-From L2 Require Import Model Base Own Jobs Term Complete GenTables Sim Inst Facts Main.
+From L2 Require Import Model Base Own Jobs Wake WakeInv Term Complete Waiter WaiterTerm GenTables Sim Inst Facts Main.
+From Gen Require Import Tables.
 
 Definition enabled_listF (F : ffacts) (s : state) : list nat :=
   filter (fun a => bool_decide (is_Some (stepF F G s a)) = true) (seq 0 (nact s)).
@@ -152,3 +153,95 @@ Example unconditional_unpark_same_schedule_code :
 Proof. eexists. split; [vm_compute; reflexivity|]. vm_compute. reflexivity. Qed.
 Print Assumptions C06_needs_unconditional_unpark_refuted.
 Print Assumptions C06_terminal_needs_unconditional_unpark.
+
+(* ---------- F6: claim_pending_queue must accept WaitingForPoll ----------
+   The table of claim_pending_queue as it was before the repair d110293 (the generated row is now `WaitingForPoll f => Some Running`). *)
+Definition claim_old (st : qstate) : option qstate := match st with Pending | Idle => Some Running | _ => None end.
+Definition old_claim_tables : ftables :=
+  let B := gen_ftables.(ft_base) in
+  {| ft_base := {| t_desync := B.(t_desync); t_sync := B.(t_sync); t_trysync := B.(t_trysync); t_resched := B.(t_resched); t_next := B.(t_next);
+                   t_claim := claim_old; t_dequeue_refuses := B.(t_dequeue_refuses); t_drain_fin := B.(t_drain_fin) |};
+     t_poll := gen_ftables.(t_poll); t_drain_pend := gen_ftables.(t_drain_pend); t_roj_pend := gen_ftables.(t_roj_pend);
+     t_roj_park := gen_ftables.(t_roj_park); t_wake_queue := gen_ftables.(t_wake_queue); t_wake_thread := gen_ftables.(t_wake_thread);
+     t_dw_wake := gen_ftables.(t_dw_wake); t_dw_wake_with := gen_ftables.(t_dw_wake_with) |}.
+Definition enabled_listT (T : ftables) (s : state) : list nat :=
+  filter (fun a => bool_decide (is_Some (step T s a)) = true) (seq 0 (nact s)).
+Lemma terminal_checkT T s : enabled_listT T s = [] -> terminal T s.
+Proof.
+  intros H a. destruct (decide (a < nact s)) as [Hlt|Hge].
+  - destruct (step T s a) eqn:E; [|done]. exfalso.
+    assert (Hin : a ∈ enabled_listT T s).
+    { unfold enabled_listT. apply elem_of_list_filter. split; [|apply elem_of_list_In, in_seq; lia].
+      rewrite E. by apply bool_decide_eq_true. }
+    rewrite H in Hin. by apply elem_of_nil in Hin.
+  - unfold step. rewrite lookup_ge_None_2; [done|]. unfold nact in Hge. lia.
+Qed.
+(* every OTHER table condition of the layer holds for the old table: none of the earlier theorems could see the defect, because the
+   waiter of sync_background was abstract ("somebody else runs my job") *)
+Lemma old_claim_all_cond : all_cond old_claim_tables.
+Proof.
+  destruct gen_all_cond as [[] [] []]. split; split; try assumption.
+  intros st st' H. destruct st; inversion H; subst; cbn; intuition congruence.
+Qed.
+Lemma old_claim_not_claim_cond : ~ claim_cond old_claim_tables.
+Proof. intros [_ _ H _ _]. specialize (H 0). discriminate H. Qed.
+
+(* Caller 0 schedules a future operation (op 0 awaits event 0), polls the future once and drops it, then calls sync; caller 1
+   fires event 0; NO pool thread.  The poll drains the queue itself, op 0 suspends, the queue is left in WaitingForPoll 0; the
+   future is dropped.  sync finds the queue busy: sync_background registers as a waiter, queues its job, tries to claim the queue
+   (its `rescheduled` flag starts out set) - the old table refuses WaitingForPoll - and waits.  Caller 1 fires the event: DrainWaker,
+   DoubleWaker, WakeQueue, reschedule_queue: the waiter is kicked and the queue is put into the schedule, twice by now; the waiter
+   tries again, is refused again and waits for ever: nobody takes the schedule entries.  All events are fired, no actor is
+   enabled, caller 0 is still inside sync. *)
+Theorem C04_needs_waiter_takeover_refuted :
+  exists tr s, run old_claim_tables (init [[OFuture [PAwait 0] (UDropAfter 1); OSync]; [OFire 0]] 0 1) tr = Some s /\
+    terminal old_claim_tables s /\ all_fired s /\
+    s.(qs) = WaitingForPoll 0 /\ s.(insched) > 0 /\ stacks s !! 0 = Some [FSBwait; FTop []] /\ GStart 0 ∈ s.(log) /\ GFinish 0 ∉ s.(log).
+Proof.
+  exists [0; 0; 0; 0; 0; 0; 0; 0; 0; 0; 0; 0; 0; 0; 0; 0; 0; 0; 0; 0; 0; 0; 1; 1; 1; 1; 1; 1; 0; 0; 1; 1; 1]. eexists.
+  split; [vm_compute; reflexivity|]. split; [apply terminal_checkT; vm_compute; reflexivity|].
+  split; [apply all_fired_chk; vm_compute; reflexivity|]. cbn.
+  split; [reflexivity|]. split; [lia|]. split; [vm_compute; reflexivity|].
+  split; [rewrite !elem_of_cons; auto|]. rewrite !not_elem_of_cons; repeat split; [done..|apply not_elem_of_nil].
+Qed.
+(* the sync-returns theorem needs the claim condition: it fails for tables that satisfy every other condition *)
+Corollary C04_sync_returns_needs_claim_cond :
+  ~ (forall T, all_cond T -> forall scripts npool nev tr s, run T (init scripts npool nev) tr = Some s -> terminal T s -> all_fired s ->
+       forall c st, stacks s !! c = Some st -> st = [FTop []] \/ st = [FPIdle] \/ exists f rest, st = FPark f :: rest).
+Proof.
+  intros H. destruct C04_needs_waiter_takeover_refuted as (tr & s & Hr & Ht & Hf & _ & _ & Hc & _).
+  destruct (H _ old_claim_all_cond _ _ _ _ _ Hr Ht Hf 0 _ Hc) as [?|[?|(f & rest & ?)]]; done.
+Qed.
+(* the same program under the generated table (after the repair): the waiter takes the queue over, resumes op 0 on its own thread
+   (parked in run_one_job_now until caller 1 fires the event), runs its own job and returns *)
+Example waiter_takeover_generated_table :
+  exists tr s, run G (init [[OFuture [PAwait 0] (UDropAfter 1); OSync]; [OFire 0]] 0 1) tr = Some s /\
+    terminal G s /\ all_fired s /\ s.(qs) = Idle /\ s.(jobs) = [] /\ stacks s !! 0 = Some [FTop []] /\ GFinish 0 ∈ s.(log) /\ GFinish 1 ∈ s.(log).
+Proof.
+  exists [0; 0; 0; 0; 0; 0; 0; 0; 0; 0; 0; 0; 0; 0; 0; 0; 0; 0; 0; 0; 0; 0; 0; 0; 0; 0; 0; 1; 1; 1; 1; 1; 1; 1; 0; 0; 1; 1; 0; 0; 0; 0; 0; 0; 0; 0;
+          0; 0; 0; 0; 0; 0]. eexists.
+  split; [vm_compute; reflexivity|]. split; [apply terminal_checkT; vm_compute; reflexivity|].
+  split; [apply all_fired_chk; vm_compute; reflexivity|]. cbn.
+  split; [reflexivity|]. split; [reflexivity|]. split; [vm_compute; reflexivity|]. rewrite !elem_of_cons. auto 10.
+Qed.
+(* ---------- candidate finding (the same refusal in SchedulerFuture::poll): await after a dropped draining future, no pool thread ----------
+   With the GENERATED tables (after the repair of F6).  Caller 0 polls a future once - the poll drains the queue, op 0 suspends on
+   event 0, the queue is left in WaitingForPoll 0 - and drops it; then it schedules a second future operation and AWAITS it: poll
+   finds WaitingForPoll of ANOTHER future, stores its waker and waits (the poll table refuses that state just as claim_pending_queue
+   did before the repair).  Caller 1 fires the event: the queue is woken and put into the schedule, the task is unparked by the
+   DoubleWaker, re-polls, is refused again and parks.  No pool thread: nobody takes the queue.  All events fired, no actor enabled,
+   caller 0 parked for ever.  So zero-pool progress of a caller that both drops and awaits futures does NOT hold (the theorems
+   cover callers that only await - C06_zero_pool_full - and callers that never await - C06_zero_pool_sync_full).
+   On the real crate: `nq=1 pool=0 ev=1 | F0[w0t]k1 F0[t]a | E0` deadlocks in 10 of 60 schedules (commit d110293). *)
+Theorem zero_pool_await_after_drop_refuted :
+  exists tr s, run G (init [[OFuture [PAwait 0] (UDropAfter 1); OFuture [] UAwait]; [OFire 0]] 0 1) tr = Some s /\
+    terminal G s /\ all_fired s /\ s.(qs) = WaitingForPoll 0 /\ s.(insched) > 0 /\ stacks s !! 0 = Some [FPark 1; FTop []].
+Proof.
+  exists [0; 0; 0; 0; 0; 0; 0; 0; 0; 0; 0; 0; 0; 0; 0; 0; 0; 0; 0; 0; 0; 1; 1; 1; 1; 1; 1; 1; 1; 1; 0; 0; 0]. eexists.
+  split; [vm_compute; reflexivity|]. split; [apply terminal_checkT; vm_compute; reflexivity|].
+  split; [apply all_fired_chk; vm_compute; reflexivity|]. cbn. split; [reflexivity|]. split; [lia|]. vm_compute. reflexivity.
+Qed.
+Print Assumptions zero_pool_await_after_drop_refuted.
+Print Assumptions C04_needs_waiter_takeover_refuted.
+Print Assumptions C04_sync_returns_needs_claim_cond.
+Print Assumptions waiter_takeover_generated_table.
